@@ -340,8 +340,11 @@ func stepOracleUnder(r reading, capacity int, hist []uint8, B []int, e int, flag
 			rep("C04", fmt.Sprintf("C04/flag: older version than the retained one reported as new (%s)", ei.class), ctx())
 		case supID:
 			rep("C05", fmt.Sprintf("C05/blocked: %s referenced by id by a retained deletion request of its author was inserted again", ei.class), ctx())
+			// C04 states the same clause from the flag's side ("reported as new iff ... nor suppressed by a deletion request")
+			rep("C04", fmt.Sprintf("C04/flag: event suppressed by a retained deletion request of its author reported as new (%s)", ei.class), ctx())
 		default:
 			rep("C05", fmt.Sprintf("C05/blocked: %s referenced by address by a retained deletion request of its author was inserted again", ei.class), ctx())
+			rep("C04", fmt.Sprintf("C04/flag: event suppressed by a retained deletion request of its author reported as new (%s)", ei.class), ctx())
 		}
 		v.outcome = fmt.Sprintf("%s flag=true although it had to be refused", ei.class)
 		return v
@@ -355,6 +358,7 @@ func stepOracleUnder(r reading, capacity int, hist []uint8, B []int, e int, flag
 		}
 		if stale {
 			rep("C05", fmt.Sprintf("C05/unblock: %s still refused after the deletion request referencing it left the store", ei.class), ctx())
+			rep("C04", fmt.Sprintf("C04/flag: new event reported as not new (%s)", ei.class), ctx())
 		} else {
 			rep("C04", fmt.Sprintf("C04/flag: new event reported as not new (%s)", ei.class), ctx())
 		}
